@@ -1,2 +1,36 @@
--- driver stub (not built yet)
-def main : IO Unit := pure ()
+import QmcModel.Proto
+import QmcModel.Snapshot
+open Qmc Qmc.Proto Qmc.Snap Qmc.Gen
+
+/-
+C13 driver.  Twin / clone / pool comparisons are Rust-vs-Rust (the oracle column of the harness is the property on
+the real code); the model's answer is the proved verdict `same`.  The `draws n` cases compare the number of
+container-RNG words one tempering step consumes on an `n`-replica container, serial and rayon, with the model
+(`temperingStep` / `parTemperingStep` over a counting RNG) — this is where the one-replica difference shows.
+-/
+
+/-- counting RNG: the state is the number of words drawn; replicas are inert -/
+def countOps : Ops Nat Nat Nat Unit where
+  hamEq a b := a == b
+  cutoff q := q
+  setCutoff c _ := c
+  swapOn a b _ _ := (a, b, false)
+  genHalf r := (true, r + 1)
+  genUnif r := ((), r + 1)
+
+def tcOf (n : Nat) : TC Nat Nat Nat :=
+  { graphs := (List.range n).map fun i => (i, i), rng := some 0, graph_ham_eq_a := none, graph_ham_eq_b := none,
+    total_swaps := 0 }
+
+def step (toks : List String) : String :=
+  match toks with
+  | ["draws", n] =>
+    let n := parseNat n
+    let s := (temperingStep countOps (tcOf n)).rng.getD 0
+    let p := (parTemperingStep countOps (fun _ _ m => List.range m) 0 (tcOf n)).rng.getD 0
+    s!"{s} {p}"
+  | k :: _ =>
+    if k.startsWith "twin-" || k.startsWith "clone-" || k == "pool" then "same" else "bad-op"
+  | _ => "bad-op"
+
+def main : IO Unit := run step
